@@ -182,6 +182,7 @@ class Step:
         self.post_store = o["post_stores"][k + 1]
         self.taps = [t for t in o["taps"] if t["step"] == k]
         self.probe_taps = {j: [t for t in o["taps"] if t["step"] == 1000 + 10 * k + j] for j in range(4)}
+        self.strict = bool(case.get("strict"))      # a history no known finding lists: nothing is classified as known
         self.remote = (case.get("steps") or [{}] * (k + 1))[k].get("remote") if k < len(case.get("steps") or []) else None
 
     def concl(self, which):
@@ -272,6 +273,63 @@ def covered(e, olds):
     return any(o[0] == pkg and o[1] == ver and clo <= o[2] and sug == o[3] and notes == o[4] for o in olds)
 
 
+def oracle_c05(step):
+    """`certify`: every audit of the crate that is NEW in audits.toml denotes what was asked for — the requested span with
+    the requested criteria (meaning, not spelling) — or the requested span folded with a removed adjacent prior audit that
+    was itself recorded for exactly those criteria.  A record for X never comes to count for something X does not imply."""
+    out = []
+    if step.cls != "certify" or step.outcome != "ok" or step.pre is None or step.post is None or len(step.args) < 3:
+        return out
+    pkg = step.args[1]
+    pos = []
+    for a in step.args[2:]:
+        if a.startswith("--"):
+            break
+        pos.append(a)
+    if not pos or len(pos) > 2:
+        return out
+    to = pos[-1]
+    frm = pos[0] if len(pos) == 2 else None
+    asked = [step.args[i + 1] for i, a in enumerate(step.args[:-1]) if a == "--criteria"]
+    if not asked:
+        return out
+    tbl = step.post["audits"]
+    req = jclosure(tbl, asked)
+
+    def span(e):
+        if e.get("violation") is not None:
+            return None
+        if e.get("delta") is not None:
+            a, _, b = str(e["delta"]).partition(" -> ")
+            return (a.strip(), b.strip()) if b else (None, a.strip())
+        return (None, e.get("version"))
+    P = [a for a in (step.pre["audits"].get("audits") or {}).get(pkg, [])]
+    Q = [a for a in (step.post["audits"].get("audits") or {}).get(pkg, [])]
+    pc, qc = Counter(jkey(a) for a in P), Counter(jkey(a) for a in Q)
+    new = [json.loads(t) for t in (qc - pc).elements()]
+    gone = [json.loads(t) for t in (pc - qc).elements()]
+    for e in new:
+        sp = span(e)
+        if sp is None:
+            continue
+        got = jclosure(tbl, aslist(e.get("criteria")))
+        if got != req:
+            out.append({"what": f"`certify {pkg}` for {sorted(asked)} wrote an audit {sp} whose criteria mean {sorted(got)}, not {sorted(req)}"})
+            continue
+        if sp == (frm, to):
+            continue
+        folded = [g for g in gone if span(g) == (sp[0], frm) and sp[1] == to]
+        if not folded:
+            out.append({"what": f"`certify {pkg} {' '.join(pos)}` wrote an audit for the span {sp}, which is neither the span asked for nor "
+                                "that span folded with an adjacent prior audit"})
+        elif not any(jclosure(tbl, aslist(g.get("criteria"))) == req for g in folded):
+            g = folded[0]
+            out.append({"what": f"`certify {pkg} {' '.join(pos)}` for {sorted(asked)} folded the prior audit {span(g)}, recorded for "
+                                f"{sorted(jclosure(tbl, aslist(g.get('criteria'))))}, into one audit {sp} for {sorted(req)}: a record now counts "
+                                "for criteria it does not imply"})
+    return out
+
+
 def oracle_c11(step):
     out = []
     if step.outcome != "ok" or step.pre is None or step.post is None:
@@ -319,6 +377,9 @@ def oracle_c11(step):
         added = Counter({k: v for k, v in added.items() if k[0] != target})
         if sum(1 for k in (qa - pa) if k[0] == target) > 1:
             out.append({"what": f"`{cmd}` added more than the requested audit for {target}"})
+    if cls == "certify":
+        # what certify writes for the target denotes what was asked for (a folded prior audit had the same criteria)
+        out += oracle_c05(step)
     if cls != "record-violation" and added:
         out.append({"what": f"`{cmd}` added or altered local audits: {sorted(added)[:2]}"})
     removed = pa - qa
@@ -427,7 +488,7 @@ def oracle_c13(step):
             # (freshness promotion after the import); anything else is new
             # (the same pruning update, with the same mechanism, runs in regenerate imports / exemptions)
             if cls in ("prune", "regenerate-imports", "regenerate-exemptions", "trust") and rep.get("files") and \
-                    only_removals(step.s["files"], rep["files"]):
+                    only_removals(step.s["files"], rep["files"]) and not step.strict:
                 f = "F-C13-prune"
             # the known finding for regenerate exemptions: the second run re-minimises the exemptions
             # the first run wrote (narrows / merges / drops / widens them); with other exemptions other
@@ -453,7 +514,7 @@ def oracle_c13(step):
             a, b = canon_updates(ups[0]["obs"]), canon_updates(ups[1]["obs"])
             if a != b:
                 out.append({"what": "`cargo vet` right after `cargo vet prune` still advises pruning (advice and applied update differ)",
-                            "finding": "F-C13-prune"})
+                            "finding": None if step.strict else "F-C13-prune"})
     return out
 
 
